@@ -7,3 +7,8 @@ pub assume_specification<T, P: FnOnce(&T) -> bool>[Option::<T>::filter](o: Optio
         o.is_some() ==> (r.is_none() || r == o),
         o.is_some() && r.is_some() ==> p.ensures((&o.unwrap(),), true),
         o.is_some() && r.is_none() ==> p.ensures((&o.unwrap(),), false);
+
+pub assume_specification<T>[Option::<T>::replace](o: &mut Option<T>, value: T) -> (r: Option<T>)
+    ensures
+        r == *old(o),
+        *final(o) == Some(value);
